@@ -4,6 +4,7 @@ import io
 import itertools
 import os
 import random
+import shutil
 import sys
 import threading
 import traceback
@@ -167,6 +168,16 @@ def cases(rng, tier):
             for v in ((1 << 31,) if tier == "quick" else (0, 0xFF, 1 << 31)):
                 if v != toks[i][1]:
                     out.append({"fam": "repeat", "layout": li, "mut": ["n", i, v], "seq": rng.choice([["extractall"], ["testzip"], ["extractall", "testzip"]]), "open": "stream", "reps": reps})
+    if tier == "thorough" and shutil.which("valgrind"):
+        # memcheck over the stock interpreter: hostile coder properties for every codec library, a sample of the corpus, damaged PPMd/zstd/brotli streams
+        for mid, plist in HOSTILE_PROPS:
+            for props in plist:
+                out.append({"fam": "valgrind", "id": mid, "props": props, "_timeout": 900, "_cpu_budget": 900})
+        for a in corp[::3]:
+            out.append({"fam": "valgrind", "arc": a, "ops": None, "_timeout": 900, "_cpu_budget": 900})
+            size = len(a["hex"]) // 2
+            out.append({"fam": "valgrind", "arc": a, "ops": [["flip", rng.randrange(32 * 8, max(32 * 8 + 1, (32 + a["pack_total"]) * 8))]], "_timeout": 900, "_cpu_budget": 900})
+            out.append({"fam": "valgrind", "arc": a, "ops": [["trunc", max(33, size - rng.randint(1, 60))]], "_timeout": 900, "_cpu_budget": 900})
     for c in out:
         if c["fam"] == "repeat":
             c["_timeout"] = 45  # a history takes 1-3 s; a block is then named after 45 s rather than after CASE_TIMEOUT
@@ -452,6 +463,94 @@ def _run_repeat(case):
     return K.result("held", cells=[cell], obs=obs, sample=sample, **extra)
 
 
+_VG_DRIVER = r"""
+import sys, io
+import py7zr
+data = open(sys.argv[1], "rb").read()
+pw = sys.argv[2] if len(sys.argv) > 2 and sys.argv[2] != "-" else None
+for op in ("testzip", "extractall"):
+    try:
+        with py7zr.SevenZipFile(io.BytesIO(data), password=pw) as z:
+            if op == "testzip":
+                z.testzip()
+            else:
+                z.extractall(factory=py7zr.io.BytesIOFactory(1 << 20))
+        print(op, "returned")
+    except Exception as e:
+        print(op, type(e).__name__)
+"""
+
+
+def _vg_parse(text):
+    """valgrind log -> {"<kind> in <library>": count}"""
+    import re
+
+    reports = re.split(r"\n(?===\d+== (?:Invalid|Conditional|Use of uninit|Syscall param|Mismatched|Source and dest))", text)
+    libs = {}
+    for r in reports:
+        m = re.match(r"==\d+== (Invalid \w+|Conditional jump|Use of uninitialised|Syscall param|Mismatched free|Source and destination)", r)
+        if not m:
+            continue
+        so = re.findall(r"\(in ([^)]*site-packages[^)]*)\)|\((Ppmd\w*\.c|ThreadDecoder\.c|\w*ppmd\w*\.c|\w*bcj\w*\.c|\w*zstd\w*\.c|\w*brotli\w*\.c|\w*inflate\w*\.c|\w*deflate\w*\.c):\d+\)", r)
+        lib = "cpython-or-libc"
+        for a_, b_ in so:
+            name = a_ or b_
+            lib = os.path.basename(name).split(".")[0]
+            break
+        key = "%s in %s" % (m.group(1), lib)
+        libs[key] = libs.get(key, 0) + 1
+    return libs
+
+
+def _run_valgrind(case):
+    """One input under valgrind memcheck (stock interpreter, PYTHONMALLOC=malloc). Informational: invalid reads/writes
+    inside a codec library are recorded per library; only the interpreter dying is C05's business, and the
+    other families already decide that. A report whose stack has no codec-library frame (CPython itself) is
+    recorded separately."""
+    import re
+    import subprocess
+
+    if case.get("arc"):
+        a = case["arc"]
+        data = bytes.fromhex(a["hex"])
+        pw = a["password"]
+        label = a["label"]
+        for op in case.get("ops") or []:
+            data = D.apply(data, op)
+            label += ":%r" % (op[:2],)
+    else:
+        payload = random.Random(3).randbytes(96)
+        mem = [{"name": "x", "kind": "file", "data": payload, "mtime": None, "attributes": 0x20}]
+        data = W.build(mem, {"folders": [{"n": 1, "chain": [{"m": "RAW", "id": case["id"], "props": case["props"] or None}], "crc": "sub"}], "header": "raw"})
+        pw = "pw"
+        label = "props:%s:%s" % (case["id"], case["props"])
+    obs = {"valgrind_runs": 0, "valgrind_runs_with_reports": 0, "valgrind_reports": 0}
+    with pz.scratch("vf-c05v-") as d:
+        inp = os.path.join(d, "i.7z")
+        with open(inp, "wb") as f:
+            f.write(data)
+        log = os.path.join(d, "vg.log")
+        env = dict(os.environ, PYTHONMALLOC="malloc")
+        root = os.environ.get("VERIF_REPO", "/repo")
+        env["PYTHONPATH"] = root + os.pathsep + env.get("PYTHONPATH", "")
+        try:
+            p = subprocess.run(["valgrind", "-q", "--num-callers=10", "--error-limit=no", "--log-file=" + log, sys.executable, "-c", _VG_DRIVER, inp, pw if pw is not None else "-"],
+                               capture_output=True, text=True, timeout=800, env=env)
+        except subprocess.TimeoutExpired:
+            return K.result("inconclusive", key="valgrind-timeout", what="%s: valgrind run exceeded 800 s" % label)
+        obs["valgrind_runs"] = 1
+        text = open(log, errors="replace").read() if os.path.exists(log) else ""
+    libs = _vg_parse(text)
+    obs["valgrind_reports"] = sum(libs.values())
+    obs["valgrind_runs_with_reports"] = 1 if libs else 0
+    for k, v in libs.items():
+        obs["valgrind: " + k] = v
+    died = p.returncode < 0 or p.returncode >= 128
+    cell = "valgrind|%s|%s|%s" % ("coder-props" if not case.get("arc") else ("intact" if not case.get("ops") else "damage-" + case["ops"][0][0]), "reports" if libs else "clean", "died" if died else "survived")
+    sample = {"family": "valgrind", "input": label[:80], "reports": libs, "stdout": p.stdout.strip().splitlines()[:2], "exit": p.returncode}
+    return K.result("held", cells=[cell], obs=obs, sample=sample)
+
+
 def run_case(case):
     from vf.core import worker as WK
 
@@ -462,6 +561,8 @@ def run_case(case):
     fam = case["fam"]
     if fam == "repeat":
         return _run_repeat(case)
+    if fam == "valgrind":
+        return _run_valgrind(case)
     if fam in ("intact", "damage", "password"):
         a = case["arc"]
         base = bytes.fromhex(a["hex"])
